@@ -1,7 +1,8 @@
 """C04 - simulate samples the program's distribution and is a function of the key.
 
 Enumerated: complete probability trees (E1) of `simulate` and `propose` for every finite-discrete
-program of the catalog x argument alphabet.  Oracles:
+program of the catalog x argument alphabet, plus multi-argument programs reached through a partially
+applied closure f(a).simulate(key, (b,)).  Oracles:
  (i)   sum P(path) == 1 (the tree is complete);
  (ii)  for every complete assignment t: sum_{paths -> t} P(path) == P_ref(t);
  (iii) shared keys are comonotone in the explorer, so key reuse between effective sites breaks (ii);
@@ -15,7 +16,7 @@ from __future__ import annotations
 import numpy as np
 import jax
 
-from ..common import Case, close
+from ..common import Case, HarnessError, close
 from .. import gfi, grammar, seam
 from ..harness import Prog, args_key, base_key, to_jax_args, norm_ret, cmp_ret
 
@@ -38,8 +39,36 @@ BOUNDS = {
 JOBS = {"quick": 8, "thorough": 16}
 
 
+class _PartialShim:
+    """f(a).simulate(key, (b, ...)): the generative function reached through a partially applied closure
+    (stored positional arguments + call-time arguments).  Seeded change C04-c04c-sub3 swapped the two
+    groups in GenerativeFunctionClosure.simulate; the reference is the underlying program at (a, b, ...)."""
+
+    def __init__(self, gf, k):
+        self.gf, self.k = gf, k
+
+    def simulate(self, key, args):
+        return self.gf(*args[: self.k]).simulate(key, tuple(args[self.k :]))
+
+    def propose(self, key, args):
+        return self.gf(*args[: self.k]).propose(key, tuple(args[self.k :]))
+
+
+def partial_of(node, k=1):
+    import copy
+
+    n = copy.copy(node)
+    n.name = f"partial{k}({node.name})"
+    inner_gf = node.gf
+    n.gf = lambda: _PartialShim(inner_gf(), k)
+    return n
+
+
 def _programs(tier):
     progs = grammar.catalog(tier, continuous=True)
+    f = grammar.Flip()
+    multi = [grammar.pair2(), grammar.Scan(grammar.kern(f), 2, xs=True), grammar.dimap_std(f), grammar.Vmap(grammar.pair2(), 2, (0, None))]
+    progs = progs + [partial_of(n) for n in multi]
     return progs
 
 
@@ -58,6 +87,13 @@ def _run(node, tier, seed):
                 except seam.TreeCapped as e:
                     ctx.cap(f"{op} args#{ai}: {e}")
                     ctx.ev((node.name, args_key(args), op, "capped"), nontrivial=False)
+                    continue
+                except HarnessError:
+                    raise
+                except Exception as e:
+                    # simulate / propose of a catalog program on alphabet arguments must not raise
+                    ctx.ev((node.name, args_key(args), op, "raised"), nontrivial=True)
+                    ctx.fail(grammar.component_of(node), op, "tree", f"exception:{type(e).__name__}", dict(program=node.name, args=args_key(args), msg=str(e)[:300]))
                     continue
                 ctx.note("trees")
                 ctx.note("paths", len(tree.paths))
@@ -90,9 +126,14 @@ def _run(node, tier, seed):
             tr = gf.simulate(key, a)
             return tr.get_score(), tr.get_retval(), tr.get_choices()
 
-        r1 = sim(key, jargs)
-        r2 = sim(key, jargs)
-        r3 = jax.jit(sim)(key, jargs)
+        try:
+            r1 = sim(key, jargs)
+            r2 = sim(key, jargs)
+            r3 = jax.jit(sim)(key, jargs)
+        except Exception as e:
+            ctx.ev((node.name, "determinism", "raised"), nontrivial=True)
+            ctx.fail(grammar.component_of(node), "simulate", "seam_off", f"exception:{type(e).__name__}", dict(program=node.name, msg=str(e)[:300]))
+            return
         l1, l2, l3 = (jax.tree_util.tree_leaves(r) for r in (r1, r2, r3))
         same12 = len(l1) == len(l2) and all(np.array_equal(np.asarray(a), np.asarray(b), equal_nan=True) for a, b in zip(l1, l2))
         same13 = len(l1) == len(l3) and all(close(np.asarray(a, dtype=np.float64), np.asarray(b, dtype=np.float64)) for a, b in zip(l1, l3))
